@@ -394,6 +394,14 @@ class C09(Prop):
         # the console user (slot 0) and a user of the first chunk keep working afterwards
         mk("fifty-one-connections", ["mode console", "script u3 netdead err"] + ["step conn:c%d" % i for i in range(1, 52)] +
            ["step send:c51:a/ send:c1:b/ cin:c/", "step close:c2 conn:c52", "step send:c52:d/ tick"])
+        # input_to(): the next line goes to the callback (no process_input, no command, no prompt while one is pending);
+        # the callback re-arms itself, raises, disconnects its user; only the first of two input_to() calls counts
+        mk("input-to-chain", ["mode net", "script u1 logon it:s;it:t", "script u1 it:s it:t", "script u1 it:t err",
+                              "script u1 cmd:ask it:s;w:q", "script u2 logon it:s", "script u2 it:s dest:me", "script u3 it:s ok",
+                              "script u3 input it:s", "step conn:c1", "step conn:c2", "step conn:c3",
+                              "step send:c1:l1/l2/l3/ask/l5/l6/ send:c2:bye/never/ send:c3:a/b/c/", "step close:c1"])
+        mk("input-to-console", ["mode console", "script u1 logon it:s", "script u1 it:s it:t;cerr", "script u1 it:t dest:me",
+                                "step cin:one/two/", "step cin:three/"])
         mk("connect-rejected", ["mode net", "script k1 connect rej", "step conn:c1", "step conn:c2", "step send:c2:a/"])
         return B
 
@@ -428,11 +436,11 @@ class C09(Prop):
         return problems
 
     # ---- random histories -------------------------------------------------------
-    def gen_ops(self, rng, me, nusers, nobjs, allow_err=True):
+    def gen_ops(self, rng, me, nusers, nobjs, allow_err=True, allow_it=False):
         ops = []
         for _ in range(rng.weighted([(1, 6), (2, 3), (3, 1)])):
             k = rng.weighted([("ok", 4), ("err", 5 if allow_err else 0), ("cerr", 2), ("dest", 3), ("co", 3), ("hb", 2),
-                              ("w", 2), ("meh", 1)])
+                              ("w", 2), ("meh", 1), ("it", 3 if allow_it else 0)])
             if k == "dest":
                 t = rng.weighted([("me", 3), ("u", 3), ("o", 2)])
                 if t == "u":
@@ -451,6 +459,8 @@ class C09(Prop):
                 ops.append("w:" + rng.choice(["hi", "zz", "msg"]))
             elif k == "meh":
                 ops.append("meh:" + rng.choice(["ok", "raise", "recurse"]))
+            elif k == "it":
+                ops.append("it:" + rng.choice(["s", "t"]))
             else:
                 ops.append(k)
             if k == "err":
@@ -472,9 +482,12 @@ class C09(Prop):
                 if rng.chance(density, 100):
                     lines.append("script o%d %s %s" % (i, kind, self.gen_ops(rng, "o%d" % i, nusers, nobjs)))
         for u in range(1, nusers + 2):
-            for kind in ["logon", "input", "netdead", "hb", "co:p", "co:q"] + ["cmd:" + v for v in verbs]:
+            for kind in ["logon", "input", "netdead", "hb", "co:p", "co:q", "it:s", "it:t"] + ["cmd:" + v for v in verbs]:
                 if rng.chance(density // 2 if kind in ("logon", "input") else density, 100):
-                    lines.append("script u%d %s %s" % (u, kind, self.gen_ops(rng, "u%d" % u, nusers, nobjs)))
+                    # input_to() acts on command_giver: that is the user itself in logon, process_input, a command and
+                    # an input_to callback (not in net_dead / call_out / heart_beat, where it is inherited)
+                    it_ok = kind in ("logon", "input", "it:s", "it:t") or kind.startswith("cmd:")
+                    lines.append("script u%d %s %s" % (u, kind, self.gen_ops(rng, "u%d" % u, nusers, nobjs, allow_it=it_ok)))
         refused = set()
         for k in range(1, nusers + 3):
             if rng.chance(6, 100):
